@@ -420,6 +420,15 @@ type LoopSpec struct {
 
 type ParamDecl struct{ Name, Type string }
 
+// ClosureSpec: "closure N implements FuncType couple <local> = <ghostvar>": the N-th closure
+// of the function is passed where FuncType is expected; while it is in the callee's hands the
+// captured local is represented by the ghost variable the func-type contract speaks about.
+type ClosureSpec struct {
+	Ord    int
+	Impl   string
+	Couple [][2]string
+}
+
 type FuncSpec struct {
 	Key      string
 	Kind     string // func | iface | functype | lemma | axiom | define
@@ -436,6 +445,7 @@ type FuncSpec struct {
 	Loops    map[int]*LoopSpec
 	Uses     []*CE // axiom / lemma instantiations assumed at entry
 	UsesRet  []*CE // ... assumed at every return (post-state, results in scope)
+	Closures map[int]*ClosureSpec
 	Props    []string
 	Body     *CE    // define / axiom body
 	RetSort  string // define result sort
@@ -859,6 +869,30 @@ func (sp *Specs) parseFile(path string) error {
 				cur.Props = append(cur.Props, strings.Fields(strings.ReplaceAll(rest, ",", " "))...)
 			case "note":
 				cur.Notes = append(cur.Notes, rest)
+			case "closure":
+				// closure N implements FT couple a = g, b = h
+				f := strings.Fields(rest)
+				if len(f) < 3 || f[1] != "implements" {
+					return errf("closure needs 'N implements FuncType [couple x = ghost, ...]'")
+				}
+				n, err := strconv.Atoi(f[0])
+				if err != nil {
+					return errf("closure ordinal: %v", err)
+				}
+				cs := &ClosureSpec{Ord: n, Impl: f[2]}
+				if i := strings.Index(rest, " couple "); i >= 0 {
+					for _, pr := range strings.Split(rest[i+8:], ",") {
+						kv := strings.Split(pr, "=")
+						if len(kv) != 2 {
+							return errf("couple needs 'local = ghostvar'")
+						}
+						cs.Couple = append(cs.Couple, [2]string{strings.TrimSpace(kv[0]), strings.TrimSpace(kv[1])})
+					}
+				}
+				if cur.Closures == nil {
+					cur.Closures = map[int]*ClosureSpec{}
+				}
+				cur.Closures[n] = cs
 			case "useatret":
 				e, err := parseCE(rest)
 				if err != nil {
